@@ -296,12 +296,20 @@ func NCSFail(k int) {}
 // owns a recording HTTP endpoint instead.
 func NCSPosts() []ncsclient.ReceiptPayload { panic("verifnd.NCSPosts is engine-only") }
 
+// Preempt sets the preemption bound of the Par blocks that follow (overrides the check's setting).
+func Preempt(n int) { preemptOverride = n }
+
+var preemptOverride = -1
+
 // Par runs the functions concurrently. Natively: real goroutines (used under -race).
 func Par(fs ...func()) {
 	if ParRunner != nil && os.Getenv("VERIFND_SCHED") == "1" {
 		mp := 2
 		if os.Getenv("VERIFND_MAXPRE") != "" {
 			fmt.Sscanf(os.Getenv("VERIFND_MAXPRE"), "%d", &mp)
+		}
+		if preemptOverride >= 0 {
+			mp = preemptOverride
 		}
 		ParRunner(fs, schedule, mp)
 		return
